@@ -341,6 +341,38 @@ func compilerOfOrder(cfg string, semiFirst bool) *compiler.Compiler {
 	return c
 }
 
+// compilerReconfigured: a Compiler that was first set up with the opposite pretty-printing options and then configured
+// again by a call that names only the options of cfg that differ from the defaults (two spaces, semicolons); nil when cfg
+// is no pretty configuration. Every WithPrettyPrint call starts from the defaults, so the result must behave like a
+// fresh compiler with cfg.
+func compilerReconfigured(cfg string) *compiler.Compiler {
+	f := strings.Split(cfg, ":")
+	if len(f) != 3 {
+		return nil
+	}
+	indent := unhex(f[1])
+	c := compiler.New().WithPrettyPrint(compiler.WithSemi(f[2] != "1"), compiler.WithTabs())
+	var opts []compiler.PrettyPrintOption
+	if indent != "  " {
+		switch {
+		case indent == "\t":
+			opts = append(opts, compiler.WithTabs())
+		case strings.Trim(indent, " ") == "" && indent != "":
+			opts = append(opts, compiler.WithSpaces(len(indent)))
+		default:
+			opts = append(opts, func(o *compiler.PrettyPrintOptions) { o.IndentString = indent })
+		}
+	}
+	if f[2] != "1" {
+		opts = append(opts, compiler.WithSemi(false))
+	}
+	c = c.WithPrettyPrint(opts...)
+	if strings.Contains(f[0], "m") {
+		c = c.WithSourceMap()
+	}
+	return c
+}
+
 func compileStr(cfg string, prog *ast.Program) string {
 	res := compilerOf(cfg).Compile(prog)
 	if strings.Count(cfg, ":") == 2 {
